@@ -37,11 +37,13 @@ BOUNDED_CASES = {
     "C11": [("nonneg_dtype", None), ("nonneg_definitions", ("one history entry", "overall p", "the test returns"))],
     "C12": [("nonneg_dtype", None), ("nonneg_definitions", ("history = min",))],
     "C13": [("nonneg_dtype", None)],
+    "C05": [("nonneg_nonanticipation", None)],
     "C02": [("assorters", None)],
     "C03": [("overstatement", ("mean(B)", "does not raise"))],
     "C04": [("raire", ("does not raise", "list of assertions", "empty list exactly", "holds on the CVRs", "every elimination order"))],
     "C06": [("overstatement", ("0 <= B",)), ("data_and_pvalues", ("u = assorter bound", "only cards whose CVR", "data lie in"))],
-    "C07": [("consistent_sampling", None), ("assign_sample_nums", None), ("data_and_pvalues", ("only cards whose CVR",))],
+    "C07": [("consistent_sampling", None), ("assign_sample_nums", None), ("data_and_pvalues", ("only cards whose CVR",)),
+            ("prep_samples", None), ("manifests", ("selection order recorded",))],
     "C08": [("make_phantoms", None), ("overstatement", ("phantom",))],
     "C09": [("data_and_pvalues", ("recorded p-value", "proved reflects", "measured risk", "complete iff", "reset restores"))],
     "C10": [("sampling_escalation", None), ("escalation_pvalues", None), ("prep_samples", None)],
